@@ -1,10 +1,11 @@
 SPECIFICATION Spec
 CONSTANTS
-  N = 2
+  N = 1
   Acceptors = {1, 2, 3}
-  Conns = {1, 2, 3}
+  Conns = {1, 2}
   Closers = {1}
   MaxCloses = 2
+  MaxTotal = 3
   MaxErrs = 0
   Spurious = FALSE
 INVARIANTS TypeOK Limit OneSlotEach ClosedMeansError NoneBlockedAfterClose DrainedNeverReturned
